@@ -1,5 +1,5 @@
 """C11 — no safe operation yields an invalid hash object (the structural clauses; widest check)."""
-from ..rules import validate, tail, fields, eqord, vis, panic, parser, typestate, witness, normal
+from ..rules import validate, tail, fields, eqord, vis, panic, parser, typestate, witness, normal, convert
 
 EXPL = ("Decides: SA-VIS: the representation of all hash/target/generator types is private, no exported safe function hands out &mut "
         "into it, accumulating initialisers/views/encoders/_internal functions are not exported, exported *_unchecked are unsafe - so "
@@ -8,7 +8,8 @@ EXPL = ("Decides: SA-VIS: the representation of all hash/target/generator types 
         "release-live twin on the same operands (F2, fixed, violated this); SA-FIELDS/SA-TAIL: every writer of block-hash storage "
         "defines the whole destination (arrays wholly, or fresh+prefix, or cleared from the stored length) and RLE blocks are only "
         "written canonically; SA-TYPESTATE: comparison-target masks are cleared before accumulation at every call site; SA-PANIC: "
-        "is_valid / full_eq / Debug for all object kinds have no undischarged panic edge for ANY content (object invariants are not "
+        "SA-GUARD/SA-ERRPURE: the in-place narrowing conversion fails exactly when block hash 2 does not fit and has not written "
+        "the destination when it fails (a half-written destination is an invalid object); SA-PANIC: is_valid / full_eq / Debug for all object kinds have no undischarged panic edge for ANY content (object invariants are not "
         "assumed except on the `if self.is_valid()` arm); parsing is total (shared with C04). NOT decided: that every value written "
         "is the right one (e.g. symbol range of generator output relies on its prefix argument; stated exception in SA-TAIL).")
 
@@ -36,6 +37,7 @@ def run(ctx):
         ctx.guard("C11", "total-valid", lambda: panic.totality_of_validity(ctx, prog))
         ctx.guard("C11", "total-parse", lambda: parser.totality(ctx, prog))
         ctx.guard("C11", "fresh", lambda: parser.symbol_store(ctx, prog))
+        ctx.guard("C11", "narrow", lambda: convert.narrowing(ctx, prog))
     if ctx.tier == "thorough":
         ctx.cfg = "witness"
         ctx.guard("C11", "witness", lambda: witness.run(ctx, "witness", ["W1", "W2", "W3", "W4", "W6", "W7", "W8"]))
